@@ -3,6 +3,7 @@ module github.com/xelaj/mtproto/telegram/verifh
 go 1.23
 
 require (
+	github.com/xelaj/errs v0.0.0-20200831133608-d1c11863e019
 	github.com/xelaj/mtproto v0.0.0
 	pgregory.net/rapid v1.3.0
 	verif/evid v0.0.0
@@ -14,7 +15,6 @@ require (
 	github.com/mattn/go-colorable v0.1.8 // indirect
 	github.com/mattn/go-isatty v0.0.12 // indirect
 	github.com/pkg/errors v0.9.1 // indirect
-	github.com/xelaj/errs v0.0.0-20200831133608-d1c11863e019 // indirect
 	github.com/xelaj/go-dry v0.0.0-20210621215431-21c77821487c // indirect
 	golang.org/x/crypto v0.0.0-20210322153248-0c34fe9e7dc2 // indirect
 	golang.org/x/sys v0.0.0-20210324051608-47abb6519492 // indirect
